@@ -107,3 +107,163 @@ class NP:
     @staticmethod
     def isscalar(x):
         return isinstance(x, (int, float, complex)) or _is_sym_scalar(x)
+
+
+# ----------------------------------------------------------------------------- array functions
+from .. import arr as _A  # noqa: E402
+from ..arr import SymArray, Cat, SymList, SymListView  # noqa: E402
+
+
+def _np_arange(n, dtype=None):
+    n = SI.lift(n)
+    return SymArray((n,), lambda k: k, kind="i")
+
+
+def _np_ones(n, dtype=None):
+    if isinstance(n, tuple):
+        return SymArray(n, lambda *i: SR(1))
+    return SymArray((SI.lift(n),), lambda k: SR(1))
+
+
+def _np_zeros(n, dtype=None):
+    if isinstance(n, tuple):
+        return SymArray(n, lambda *i: SR(0))
+    return SymArray((SI.lift(n),), lambda k: SR(0))
+
+
+def _np_array(x, dtype=None):
+    if isinstance(x, (SymArray, Cat)):
+        return x
+    if isinstance(x, list) and len(x) == 0:
+        a = SymArray((SI(0),), lambda k: SI(0), kind="i")
+        a.member = lambda v: z3.BoolVal(False)
+        return a
+    return _np.array(x, dtype=dtype)
+
+
+def _np_concatenate(xs, dtype=None, axis=0):
+    out = []
+    for x in xs:
+        out += _A.blocks_of(x)
+    for b in out:
+        if not isinstance(b, SymArray) or b.ndim != 1:
+            raise Unsupported("concatenate of non 1-d symbolic arrays")
+    return Cat(out)
+
+
+def _np_einsum(spec, a, b):
+    if spec.replace(" ", "") != "ij,ij->i":
+        raise Unsupported(f"einsum {spec!r}")
+    if hasattr(a, "einsum_with"):
+        return a.einsum_with(b)
+    _A._shape_ob(a.shape, b.shape)
+    two = a.shape[1].concrete()
+    if two != 2:
+        raise Unsupported("einsum over a non-2 inner dimension")
+    return SymArray(a.shape[:1], lambda k: a.at(k, SI(0)) * b.at(k, SI(0)) + a.at(k, SI(1)) * b.at(k, SI(1)))
+
+
+def _np_isin(a, b, invert=False):
+    mem = getattr(b, "member", None)
+    if mem is None:
+        raise Unsupported("isin: second argument has no membership predicate")
+
+    def mk(blk):
+        def f(k):
+            m = mem(blk.at(k))
+            return SB(z3.Not(m) if invert else m)
+        return SymArray(blk.shape, f, blk.guard, kind="b")
+    if isinstance(a, Cat):
+        return Cat([mk(x) for x in a.blocks])
+    return mk(a)
+
+
+class _Linalg:
+    @staticmethod
+    def norm(a, axis=None):
+        if isinstance(a, SymArray) and a.ndim == 2 and axis == 1 and a.shape[1].concrete() == 2:
+            return SymArray(a.shape[:1], lambda k: real_sqrt(SR.lift(a.at(k, SI(0))) ** 2 + SR.lift(a.at(k, SI(1))) ** 2))
+        raise Unsupported("linalg.norm")
+
+
+def _np_maximum(a, b, out=None):
+    if isinstance(a, SymArray):
+        r = a._ew(b, lambda x, y: sym.ite(SR.lift(x).e >= SR.lift(y).e, x, y))
+        if out is not None:
+            out._fn, out._memo = r._fn, {}
+            return out
+        return r
+    if isinstance(a, (SR, SI)) or isinstance(b, (SR, SI)):
+        a, b = SR.lift(a), SR.lift(b)
+        return sym.ite(a.e >= b.e, a, b)
+    return _np.maximum(a, b)
+
+
+def _np_max(a):
+    if isinstance(a, SymArray):
+        return a.max()
+    if isinstance(a, (SR, SI)):
+        return a
+    return _np.max(a)
+
+
+def _np_mean(x):
+    if isinstance(x, SymListView):
+        n = _A.vlen(x)
+        return _A.list_sum(x) / SR.lift(n)
+    raise Unsupported("mean")
+
+
+def _np_clip(x, lo, hi):
+    if isinstance(x, (SR, SI)) or isinstance(lo, (SR, SI)) or isinstance(hi, (SR, SI)):
+        x, lo, hi = SR.lift(x), SR.lift(lo), SR.lift(hi)
+        return sym.ite(x.e < lo.e, lo, sym.ite(x.e > hi.e, hi, x))
+    return _np.clip(x, lo, hi)
+
+
+def _np_zeros_like(a, dtype=None):
+    return SymArray(a.shape, lambda *i: SR(0))
+
+
+def _np_empty(shape, dtype=None):
+    if not isinstance(shape, tuple):
+        shape = (shape,)
+    return SymArray.fresh("empty", shape)
+
+
+def _np_where(c):
+    raise Unsupported("where")
+
+
+for _k, _v in dict(arange=_np_arange, ones=_np_ones, zeros=_np_zeros, array=_np_array, concatenate=_np_concatenate,
+                   einsum=_np_einsum, isin=_np_isin, maximum=_np_maximum, max=_np_max, mean=_np_mean, clip=_np_clip,
+                   zeros_like=_np_zeros_like, empty=_np_empty).items():
+    setattr(NP, _k, staticmethod(_v))
+NP.linalg = _Linalg
+
+
+def model_len(x):
+    return _A.vlen(x)
+
+
+def model_float(x):
+    if isinstance(x, (SR, SI)):
+        return SR.lift(x)
+    return float(x)
+
+
+def model_max(*a):
+    if len(a) == 2 and any(isinstance(x, (SR, SI)) for x in a):
+        x, y = SR.lift(a[0]), SR.lift(a[1])
+        return sym.ite(x.e >= y.e, x, y)
+    return max(*a)
+
+
+def model_min(*a):
+    if len(a) == 2 and any(isinstance(x, (SR, SI)) for x in a):
+        x, y = SR.lift(a[0]), SR.lift(a[1])
+        return sym.ite(x.e <= y.e, x, y)
+    return min(*a)
+
+
+BUILTINS = dict(len=model_len, float=model_float, max=model_max, min=model_min)
